@@ -21,6 +21,7 @@ error classes are exactly the variants of the `Error` enum that carry a diagnosi
 import Complgen.Proofs.Validate
 import Complgen.Proofs.Cycle
 import Complgen.Gen.Diag
+import Complgen.Proofs.Verdict
 namespace Complgen.Props.C08
 open Complgen
 
@@ -137,5 +138,109 @@ example :
     Check.OneCommand g "cmd" ∧ (∃ x ∈ Check.specDefs g, Check.knownShell x = false) ∧
       (∀ x ∈ Check.specDefs g, Check.isCmdSpec x = true) := by
   refine ⟨⟨by decide, by decide⟩, ⟨_, List.mem_cons_self, by decide⟩, by decide⟩
+
+open Complgen.Check in
+/-- **No false diagnostics**: each of the eight verdicts of validation is only given when the mistake it
+names is present (`Proofs/Verdict.lean`).  For "non-command specialization" the mistake has two forms —
+the code also requires a *plain* definition of a name that is defined for the target shell as well to be
+an external command (it is that definition's fall-back). -/
+theorem no_false_diagnostics (g : Grammar) (sh : Shell) (spans : List Span) :
+    (validate g sh = .err .missingCallVariants spans → callsOf g = []) ∧
+    (validate g sh = .err .varyingCommandNames spans → ∃ a b, a ∈ callNames g ∧ b ∈ callNames g ∧ a ≠ b) ∧
+    (validate g sh = .err .invalidCommandName spans → ∃ n, OneCommand g n ∧ '/' ∈ n.toList) ∧
+    (validate g sh = .err .duplicateNonterminalDefinition spans →
+      ¬ ((plainDefs g).map (·.1)).Nodup ∨ ¬ TargetSpecsDistinct g sh) ∧
+    (validate g sh = .err .unknownShell spans → ∃ x ∈ specDefs g, knownShell x = false) ∧
+    (validate g sh = .err .nonCommandSpecialization spans →
+      (∃ x ∈ specDefs g, isCmdSpec x = false) ∨
+      (∃ p ∈ plainDefs g, p.1 ∈ targetSpecNames g sh ∧ isCmdExpr p.2.2 = false)) ∧
+    (validate g sh = .err .nonterminalDefinitionsCycle spans → Cyclic g sh) ∧
+    (validate g sh = .err .subwordSpaces spans →
+      ∃ l r t, spacesVerdict g sh = .bad l r t ∧ spans = l :: r :: t) :=
+  ⟨missingCallVariants_real g sh spans, varyingCommandNames_real g sh spans, invalidCommandName_real g sh spans,
+   duplicateNonterminalDefinition_real g sh spans, unknownShell_real g sh spans,
+   nonCommandSpecialization_real g sh spans, validate_cycle_real g sh spans, subwordSpaces_real g sh spans⟩
+
+open Complgen.Check in
+/-- validation gives no other verdicts than these eight -/
+theorem verdict_classes (g : Grammar) (sh : Shell) (c : ErrClass) (spans : List Span)
+    (h : validate g sh = .err c spans) :
+    c = .missingCallVariants ∨ c = .varyingCommandNames ∨ c = .invalidCommandName ∨
+    c = .duplicateNonterminalDefinition ∨ c = .unknownShell ∨ c = .nonCommandSpecialization ∨
+    c = .nonterminalDefinitionsCycle ∨ c = .subwordSpaces :=
+  validate_classes g sh c spans h
+
+open Complgen.Check in
+/-- **Clean grammars pass**: one command name without `/`, every name defined at most once plainly and at
+most once for the target shell, every shell-specific definition an external command for a known shell,
+the plain definitions shadowed by a target-shell definition external commands, no circle among the
+definitions, no blank-separated items inside a word — then validation accepts. -/
+theorem clean_grammars_pass (g : Grammar) (sh : Shell) (n : String) (h : OneCommand g n)
+    (hs : '/' ∉ n.toList) (hd : ((plainDefs g).map (·.1)).Nodup)
+    (hc : ∀ x ∈ specDefs g, isCmdSpec x = true) (hk : ∀ x ∈ specDefs g, knownShell x = true)
+    (hds : TargetSpecsDistinct g sh) (hsh : ShadowedPlainAreCmds g sh)
+    (hcyc : ¬ ∃ u, Reach (depGraph (tableOf sh g)) u u) (hsp : spacesVerdict g sh = .fine) :
+    ∃ v, validate g sh = .ok v :=
+  validate_ok_of_clean g sh n h hs hd hc hk hds hsh hcyc hsp
+
+open Complgen.Check in
+/-- … and only they: an accepted grammar has none of the mistakes -/
+theorem accepted_is_clean (g : Grammar) (sh : Shell) (v : Valid) (h : validate g sh = .ok v) :
+    ∃ n, WellFormed g sh n ∧ ¬ Cyclic g sh ∧ spacesVerdict g sh = .fine :=
+  accepted_real g sh v h
+
+open Complgen.Check in
+/-- the condition on shadowed plain definitions cannot be dropped: `cmd <X>; <X> ::= foo; <X@bash> ::= {{{ x }}};`
+meets all the others and is rejected for bash -/
+theorem shadowed_plain_must_be_command :
+    OneCommand shadowExample "cmd" ∧ '/' ∉ "cmd".toList ∧ ((plainDefs shadowExample).map (·.1)).Nodup ∧
+    (∀ x ∈ specDefs shadowExample, isCmdSpec x = true) ∧ (∀ x ∈ specDefs shadowExample, knownShell x = true) ∧
+    TargetSpecsDistinct shadowExample .bash ∧
+    (¬ ∃ u, Reach (depGraph (tableOf .bash shadowExample)) u u) ∧
+    spacesVerdict shadowExample .bash = .fine ∧
+    validate shadowExample .bash = .err .nonCommandSpecialization [default] ∧
+    ¬ ShadowedPlainAreCmds shadowExample .bash :=
+  clean_needs_shadowed
+
+open Complgen.Check in
+/-- **The verdict as a decision list**, in the order the code runs its checks: the first condition that holds
+decides the outcome (the shell-specific definitions are examined in source order; within one, "not a command"
+wins over "unknown shell", which wins over "second definition for the target"). -/
+theorem verdict_decision_list (g : Grammar) (sh : Shell) :
+    (callsOf g = [] → validate g sh = .err .missingCallVariants []) ∧
+    (∀ a b, a ∈ callNames g → b ∈ callNames g → a ≠ b →
+      ∃ spans, validate g sh = .err .varyingCommandNames spans) ∧
+    (∀ n, OneCommand g n → '/' ∈ n.toList → ∃ sp, validate g sh = .err .invalidCommandName [sp]) ∧
+    (∀ n, OneCommand g n → '/' ∉ n.toList → ¬ ((plainDefs g).map (·.1)).Nodup →
+      ∃ spans, validate g sh = .err .duplicateNonterminalDefinition spans) ∧
+    (∀ n, OneCommand g n → '/' ∉ n.toList → ((plainDefs g).map (·.1)).Nodup →
+      ∀ x, FirstSpecFault g sh x →
+        (isCmdSpec x = false → validate g sh = .err .nonCommandSpecialization [x.2.2.2.2.span]) ∧
+        (isCmdSpec x = true → knownShell x = false → validate g sh = .err .unknownShell [x.2.2.2.1]) ∧
+        (isCmdSpec x = true → knownShell x = true →
+          ∃ spans, validate g sh = .err .duplicateNonterminalDefinition spans)) ∧
+    (∀ n, OneCommand g n → '/' ∉ n.toList → ((plainDefs g).map (·.1)).Nodup → SpecsClean g sh →
+      ¬ ShadowedPlainAreCmds g sh → ∃ spans, validate g sh = .err .nonCommandSpecialization spans) ∧
+    (∀ n, WellFormed g sh n → Cyclic g sh → ∃ spans, validate g sh = .err .nonterminalDefinitionsCycle spans) ∧
+    (∀ n, WellFormed g sh n → ¬ Cyclic g sh →
+      ∀ l r t, spacesVerdict g sh = .bad l r t → validate g sh = .err .subwordSpaces (l :: r :: t)) ∧
+    (∀ n, WellFormed g sh n → ¬ Cyclic g sh → spacesVerdict g sh = .overflow →
+      validate g sh = .crash spacesCrash) ∧
+    (∀ n, WellFormed g sh n → ¬ Cyclic g sh → spacesVerdict g sh = .fine → ∃ v, validate g sh = .ok v) :=
+  validate_verdict g sh
+
+open Complgen.Check in
+/-- the premises of the decision list cover every grammar -/
+theorem verdict_exhaustive (g : Grammar) (sh : Shell) :
+    callsOf g = [] ∨
+    (∃ a b, a ∈ callNames g ∧ b ∈ callNames g ∧ a ≠ b) ∨
+    (∃ n, OneCommand g n ∧ '/' ∈ n.toList) ∨
+    (∃ n, OneCommand g n ∧ '/' ∉ n.toList ∧ ¬ ((plainDefs g).map (·.1)).Nodup) ∨
+    (∃ n, OneCommand g n ∧ '/' ∉ n.toList ∧ ((plainDefs g).map (·.1)).Nodup ∧ ∃ x, FirstSpecFault g sh x) ∨
+    (∃ n, OneCommand g n ∧ '/' ∉ n.toList ∧ ((plainDefs g).map (·.1)).Nodup ∧ SpecsClean g sh ∧
+      ¬ ShadowedPlainAreCmds g sh) ∨
+    (∃ n, WellFormed g sh n ∧ Cyclic g sh) ∨
+    (∃ n, WellFormed g sh n ∧ ¬ Cyclic g sh) :=
+  validate_verdict_exhaustive g sh
 
 end Complgen.Props.C08
